@@ -299,21 +299,35 @@ def run(repo='/repo', tier='quick'):
                 continue
             peek_only = not f.calls(clear) and not P.field_writes(f, '%s_current_consume_offset' % d)
             for cb, ci, cc in calls:
-                n, bad = 0, None
+                n, bad, bad_again = 0, None, None
+                heads = {h for h, body in C.loops(f) if cb in body}
                 try:
-                    paths = P.enum_paths_seq(f, (cb, ci), max_paths=50000)
+                    paths = list(P.enum_paths_seq(f, (cb, ci), max_paths=50000))
                 except AnalysisBroken:
                     res.unknown('C03.b', '%s:consolidate-then-clear' % name, 'too many paths after the consolidated view', cc['loc'])
                     continue
                 for atoms, events, end, seq in paths:
-                    if end[0] != 'return' or lit_name(P.ret_value(end[3])) != 'HTP_OK':
+                    again = end[0] == 'loop' and end[1] in heads   # back to the head of a loop around the call: the function will consolidate again
+                    if end[0] == 'loop' and not again:
+                        continue
+                    if not again and (end[0] != 'return' or lit_name(P.ret_value(end[3])) != 'HTP_OK'):
                         continue
                     n += 1
                     cleared = any(x[0] == 'stmt' and any(c2.get('callee') == clear for c2 in nodes(x[3], lambda y: y.get('k') == 'call')) for x in seq)
                     handed = any(x[0] == 'stmt' and any((c2.get('callee') or '').startswith('htp_tx_state_re') and (c2.get('callee') or '').endswith(('_complete', '_complete_ex')) for c2 in nodes(x[3], lambda y: y.get('k') == 'call')) for x in seq)
                     rewound = any(x[0] == 'stmt' and any(w.get('op') in ('=', '-=') for w in P.assigns_field(x[3], '%s_current_read_offset' % d)) for x in seq)
                     if not (cleared or handed or rewound or peek_only):
-                        bad = end[3]
+                        consumed = any(x[0] == 'stmt' and P.assigns_field(x[3], '%s_current_consume_offset' % d) for x in seq)
+                        if again and not consumed:
+                            pass                             # the line is not complete yet (CR CR LF): nothing was consumed, the next consolidation appends only new bytes
+                        elif again:
+                            bad_again = [x for x in seq if x[0] == 'stmt'][-1][3] if [x for x in seq if x[0] == 'stmt'] else cc
+                        else:
+                            bad = end[3]
+                if bad_again is not None:
+                    res.violated('C03.b', '%s:consolidate-again-without-clear' % name, '%s interprets the consolidated line, advances the consumer position and goes round its loop to consolidate the next line without clearing the line buffer: when the line started in the previous chunk it is prepended to (and, in a body state, counted with) the next line as well' % name, bad_again.get('loc', cc['loc']))
+                elif any(end[0] == 'loop' and end[1] in heads for atoms, events, end, seq in paths):
+                    res.holds('C03.b', '%s:consolidate-again-without-clear' % name, 'every way round the loop after a consolidated view clears the buffer', cc['loc'])
                 key = '%s:consolidate-then-clear' % name
                 if bad is not None:
                     res.violated('C03.b', key, '%s interprets the consolidated line and returns HTP_OK on a path that neither clears the line buffer nor hands the bytes on: a line that was carried over from the previous chunk stays buffered and is prepended to the next line' % name, bad['loc'])
